@@ -325,6 +325,12 @@ def check(an: Analysis) -> None:
         resrec = [n for n in g.nodes if n.kind == "call" and an.callee(f, n.ast) == REC and n.ast.args and isinstance(n.ast.args[0], ast.Call) and (an.callee(f, n.ast.args[0]) or "").split("#")[0] == f"{RT}.of" and n.meta.get("handler") is None]  # type: ignore[union-attr]
         from ..loader import within
 
+        # arguments and outcome - also a failure - are recorded *inside* the scope named after the function: a record made after
+        # the scope was left lands in the caller's scope (and the function's own scope ends without an outcome)
+        for rn_ in [n for n in g.nodes if n.kind == "call" and an.callee(f, n.ast) == REC]:
+            if not within(rn_.ast, scope_with):
+                ob.fail(f, rn_.ast, "a trace is recorded outside the function's own scope: it lands in the caller's scope")
+
         for n in calls + argrec + resrec:
             if not within(n.ast, scope_with):
                 ob.fail(f, n.ast, "runs outside the tracing scope")
